@@ -415,7 +415,7 @@ fn glue_safe(word: &[Unit]) -> bool {
         // a word starting with a literal that makes an assignment (a=...) cannot occur: no '='.
 }
 
-fn arb_word_case() -> impl Strategy<Value = WordCase> {
+pub fn arb_word_case() -> impl Strategy<Value = WordCase> {
     (prop::collection::vec(arb_unit(), 1..6), arb_state(), any::<bool>())
         .prop_filter("renderer would glue a name to the next character", |(w, _, _)| glue_safe(w))
         .prop_map(|(word, state, noglob)| WordCase { word, state, noglob })
